@@ -59,7 +59,9 @@ def main():
         elif t.startswith("list:"):
             _, elem, dtype = t.split(":")[:3]; args.append([np.array([dec_scalar(x, elem) for x in ch], dtype=dtype) for ch in v])
         elif t.startswith("chunks:"):
-            _, elem, dtype = t.split(":")[:3]; lst = NumbaList()
+            _, elem, dtype = t.split(":")[:3]
+            import numba
+            lst = NumbaList.empty_list(numba.types.Array(numba.from_dtype(np.dtype(dtype)), 1, "C"))      # typed even when empty
             for ch in v: lst.append(np.array([dec_scalar(x, elem) for x in ch], dtype=dtype))
             args.append(lst)
         else: raise SystemExit(f"unsupported type {t}")
